@@ -144,6 +144,18 @@ P = {
   note="Trusted: okkhor's regex patterns and the regex crate (which dictionary words match) are third-party value-level behaviour; memo contents are C05's lemma.",
   technique="sibling cross-check of extracted decision tables + affine index evaluation + loop-shape rule + data/table agreement",
   ref="§4 C08"),
+ "C13": dict(
+  text="Panic-site census of the three reph functions (every MIR Assert and every call of a panicking std function is an obligation) with "
+       "specialised discharge rules re-verified on the MIR: loop counter from 0 incremented by 1 inside a loop over an in-memory iterator; "
+       "`len − step` with len = chars().count() of the unmodified buffer and step incremented at most once per iteration of a loop over the same "
+       "buffer; the suffix-bytes idiom of the internal back-space (truncate(len() − Σ len_utf8 over chars().rev().take(n))). Value-identity "
+       "dataflow shows the tail saved (skip(len − step)) and the tail removed (back-space(step)) use the same step on the same text with no write "
+       "in between, followed by exactly push(র), push(্), push_str(tail); the not-moveable branch appends exactly র্; the routine is gated by "
+       "exactly value == \"র্\" ∧ option and the processor returns right after. Decides 'loses nothing' and 'never crashes'; not where the reph lands.",
+  note="Trusted: rustc MIR; std String/Chars semantics as summarised. The placement clause (right-to-left scan with four flags) is value-level and is "
+       "declined; the two misplacements the property text mentions are outside static reach.",
+  technique="panic-site obligations with pattern discharge rules + value-identity dataflow + ordered who-may-write + guard dominance",
+  ref="§4 C13, §3 A2/A3"),
 }
 
 NA_REASON = "rule module not built yet in this round (see DESIGN.md §4 for the planned static rules)"
